@@ -234,3 +234,33 @@ CONTRACTS["vsg.vhdlFile.utils.update_paren_counter"] = dict(
     types={"iToken": "int", "lTokens": "list[%s]" % ITEM, "iCounter": "int"}, requires=["0 <= iToken"], returns="int", modifies=[], raises=["IndexError"], raises_when={"IndexError": "iToken >= len(lTokens)"},
     ensures=["result == iCounter or result == iCounter + 1 or result == iCounter - 1"],
 )
+
+# ------------------------------------------------------------------------------------------------ more helpers (pure look-aheads and the like)
+CONTRACTS.update({
+    "vsg.vhdlFile.utils.skip_tokens_until_matching_closing_paren": dict(
+        types={"iToken": "int", "lObjects": "list[%s]" % ITEM}, requires=["0 <= iToken"], returns="opt[int]", modifies=[], raises=["IndexError"],
+        ensures=["implies(result is not None, iToken <= result and result < len(lObjects))"],
+        loops={1: dict(invariant=["iToken <= iCurrent"], decreases="len(lObjects) - iCurrent")},
+    ),
+    "vsg.vhdlFile.utils.calculate_line_number": dict(
+        types={"iToken": "int", "lObjects": "list[%s]" % ITEM}, returns="int", modifies=[], raises=["IndexError"], ensures=["result >= 1"],
+        loops={1: dict(invariant=["iReturn >= 1"])},
+    ),
+    "vsg.vhdlFile.utils.are_next_consecutive_tokens_ignoring_whitespace": dict(
+        external=True, params=["lTokens", "iToken", "lObjects"], types={"iToken": "int", "lObjects": "list[%s]" % ITEM}, returns="bool", modifies=[],
+        trusted="assumed: a pure look-ahead (None entries in its list of expected values; IndexError is caught inside)",
+    ),
+    "vsg.vhdlFile.utils.find_next_token_with_value": dict(
+        types={"iToken": "int", "sValue": "str", "lTokens": "list[%s]" % ITEM}, requires=["0 <= iToken"], returns="opt[int]", modifies=[],
+        ensures=["implies(result is not None, iToken <= result and result < len(lTokens))"],
+        loops={1: dict(invariant=["True"])},
+    ),
+    "vsg.vhdlFile.utils.all_assignments_inside_parenthesis": dict(
+        types={"iToken": "int", "sStop": "str", "lTokens": "list[%s]" % ITEM}, requires=["0 <= iToken"], returns="bool", modifies=[], raises=["IndexError", "TypeError"],
+        loops={1: dict(invariant=["True"])},
+    ),
+    "vsg.vhdlFile.utils.assign_special_tokens": dict(
+        types={"lObjects": "list[%s]" % ITEM, "iCurrent": "int", "oType": TCLS}, requires=["0 <= iCurrent", "iCurrent <= len(lObjects)"], modifies=["lObjects"], raises=RAISES,
+        ensures=["len(lObjects) == len(old(lObjects))"],
+    ),
+})
